@@ -88,7 +88,7 @@ impl Ctx {
     fn sample_ok(&self, s: &serde_json::Value) -> bool {
         let is_enum = |v: &serde_json::Value| {
             v["sub"].as_str().map_or(false, |x| {
-                ["exhaustive", "sweep", "cell", "long-pattern", "scenario", "hammer", "regression"].iter().any(|p| x.starts_with(p))
+                ["exhaustive", "sweep", "cell", "long-pattern", "scenario", "hammer", "regression", "many-patterns"].iter().any(|p| x.starts_with(p))
             })
         };
         !is_enum(s) || self.samples.iter().filter(|x| is_enum(x)).count() < 2
@@ -196,6 +196,7 @@ pub fn run_worker(
     let strategy = (def.strategy)(tier);
     let check = def.check;
     let cell = std::cell::RefCell::new(&mut ctx);
+    let slow_ms: Option<u64> = std::env::var("VERIF_SLOW_MS").ok().and_then(|v| v.parse().ok());
     let result = runner.run(&strategy, |case| {
         let mut guard = cell.borrow_mut();
         let ctx: &mut Ctx = &mut **guard;
@@ -203,7 +204,17 @@ pub fn run_worker(
         if !ctx.frozen && STOP.load(std::sync::atomic::Ordering::Relaxed) {
             return Ok(());
         }
-        match run_check(check, &case, ctx) {
+        let t_case = Instant::now();
+        let r = run_check(check, &case, ctx);
+        // diagnostics only (VERIF_SLOW_MS=n): report cases slower than n ms
+        if let Some(limit) = slow_ms {
+            let ms = t_case.elapsed().as_millis() as u64;
+            if ms >= limit {
+                let plen: usize = case.patterns.iter().map(|p| p.len()).sum();
+                eprintln!("SLOW {} ms worker {} sub={} cfg={:?} patterns={} pattern_bytes={} haystack={} span={:?}", ms, worker, case.sub, case.cfg, case.patterns.len(), plen, case.haystack.len(), case.span);
+            }
+        }
+        match r {
             Ok(()) => Ok(()),
             Err(reason) => {
                 ctx.frozen = true;
@@ -318,7 +329,7 @@ pub fn regressions_for(id: &str) -> Vec<(PathBuf, Case)> {
     out
 }
 
-pub fn run_property(def: &PropDef, tier: Tier, seed: u64) -> i32 {
+pub fn run_property(def: &'static PropDef, tier: Tier, seed: u64) -> i32 {
     let t0 = Instant::now();
     let known = Known::load(def.id);
     for (_, text) in &known.entries {
@@ -369,26 +380,50 @@ pub fn run_property(def: &PropDef, tier: Tier, seed: u64) -> i32 {
     let cases = ((cases as f64) * scale) as u64;
     if violation.is_none() && cases > 0 {
         let per = (cases + WORKERS - 1) / WORKERS;
-        let results: Vec<(Ctx, Option<Violation>)> = std::thread::scope(|s| {
-            let hs: Vec<_> = (0..WORKERS)
-                .map(|w| {
-                    std::thread::Builder::new()
-                        .stack_size(64 << 20)
-                        .spawn_scoped(s, move || run_worker(def, tier, seed, w, per))
-                        .unwrap()
-                })
-                .collect();
-            hs.into_iter()
-                .map(|h| match h.join() {
-                    Ok(r) => r,
-                    Err(_) => {
+        // Workers report over a channel. When one of them holds a (shrunk)
+        // violation the others are given a grace period only: code that
+        // breaks a property can also make some other case loop for ever
+        // inside the library (e.g. a cyclic failure chain during a build),
+        // and a violation in hand must not be turned into a hang by that.
+        let (tx, rx) = std::sync::mpsc::channel::<(Ctx, Option<Violation>)>();
+        for w in 0..WORKERS {
+            let tx = tx.clone();
+            std::thread::Builder::new()
+                .stack_size(64 << 20)
+                .spawn(move || {
+                    let r = std::panic::catch_unwind(std::panic::AssertUnwindSafe(|| run_worker(def, tier, seed, w, per)));
+                    let r = r.unwrap_or_else(|_| {
                         let mut c = Ctx::default();
                         c.count("worker_panicked", 1);
                         (c, None)
-                    }
+                    });
+                    let _ = tx.send(r);
                 })
-                .collect()
-        });
+                .unwrap();
+        }
+        drop(tx);
+        let mut results: Vec<(Ctx, Option<Violation>)> = Vec::new();
+        let mut deadline: Option<Instant> = None;
+        while results.len() < WORKERS as usize {
+            let got = match deadline {
+                None => rx.recv().map_err(|_| ()),
+                Some(d) => rx.recv_timeout(d.saturating_duration_since(Instant::now())).map_err(|_| ()),
+            };
+            match got {
+                Ok(r) => {
+                    if r.1.is_some() && deadline.is_none() {
+                        deadline = Some(Instant::now() + std::time::Duration::from_secs(45));
+                    }
+                    results.push(r);
+                }
+                Err(()) => {
+                    if deadline.is_some() {
+                        println!("NOTE property={} {} worker(s) did not finish within 45 s after a violation was found (abandoned; their counts are missing from the evidence)", def.id, WORKERS as usize - results.len());
+                    }
+                    break;
+                }
+            }
+        }
         if results.iter().any(|(c, _)| c.counters.contains_key("worker_panicked")) {
             println!("INCONCLUSIVE property={} a harness worker panicked outside a check (set VERIF_PANIC_TRACE=1)", def.id);
             return 2;
